@@ -212,7 +212,7 @@ theorem C01Cfg_pin_run_clock :
 /-- `runDrift` IS the regenerated `(*SystemClock).Drift` (leaf translator) on the clock that
     `NewSystemClock` builds, for every configured drift and every interval -/
 theorem C01Cfg_runDrift_leaf (d iv : Int64) (e : UInt64) :
-    (Gen.Leaf.clocks_SystemClock_Drift { drift := F64.durationSeconds d.toInt, epoch := e } iv).toInt =
+    (Gen.Leaf.clocks_SystemClock_Drift { drift := F64.durationSeconds d.toInt, epoch := e, adjustment := none } iv).toInt =
       runDrift d.toInt iv.toInt :=
   LeafTieC18.C18_leaf_Drift _ _
 
